@@ -189,7 +189,7 @@ func Run(tier string, sh lib.Shard, rep *lib.Report) {
 	rep.Bounds["weights"] = ws
 	rep.Bounds["extra_large_weights_thorough"] = tier == "thorough"
 	rep.Rule = "BFS to fixpoint over NextServer/ServeHTTP/Upsert(s,w)/Remove(s) on the real RoundRobin, exact state key = reflective dump (pool order, weights, iterator index and level); in every reached state the next W=sum(w)/gcd selections must contain server i exactly w_i/gcd times; non-trivial = windows checked on a servable pool"
-	rep.Require("windows_checked", "windows_with_common_factor", "windows_with_zero_weight_server")
+	rep.Require("windows_checked", "windows_with_common_factor", "windows_with_zero_weight_server", "windows_with_interleaved_sticky_requests")
 	// one strongly connected state space: level-synchronous distributed BFS over all workers
 	r := m.RunDistributed(rep, sh, os.Getenv("VERIF_GANG_DIR"))
 	rep.Bounds["search"] = r.Describe()
@@ -233,7 +233,66 @@ func Run(tier string, sh lib.Shard, rep *lib.Report) {
 			}
 		}
 	}
+	if sh.I == 0 {
+		stickyInterleaved(rep)
+	}
 	rep.Nontrivial = rep.Counters["windows_checked"]
+}
+
+// stickyInterleaved: sticky sessions are enabled and requests that carry a valid affinity cookie (they are routed
+// by the cookie, the balancer does not select for them) are interleaved with cookie-less ones in several
+// rhythms. The SELECTIONS - the placements of the cookie-less requests - must stay exactly proportional.
+func stickyInterleaved(rep *lib.Report) {
+	for _, pool := range [][]int{{1, 1}, {3, 2}, {2, 1, 0}, {1, 1, 1}, {4, 2}} {
+		for _, rhythm := range [][2]int{{1, 1}, {1, 2}, {1, 3}, {2, 1}, {3, 1}} { // {sticky requests, cookie-less requests} per round
+			W, g := 0, 0
+			for _, w := range pool {
+				g = gcd(g, w)
+			}
+			for _, w := range pool {
+				W += w / g
+			}
+			for off := 0; off < W; off++ {
+				s := newSys(roundrobin.EnableStickySession(roundrobin.NewStickySession("sid")))
+				for i, w := range pool {
+					s.rr.UpsertServer(serverURL(i), roundrobin.Weight(w))
+					if w == 0 {
+						s.rr.UpsertServer(serverURL(i), roundrobin.Weight(0))
+					}
+				}
+				for k := 0; k < off; k++ {
+					s.pick(1)
+				}
+				got := map[string]int{}
+				n := 0
+				for n < W {
+					for k := 0; k < rhythm[0]; k++ {
+						req := httptest.NewRequest("GET", "http://client/", nil)
+						req.AddCookie(&http.Cookie{Name: "sid", Value: serverURL(0).String()})
+						s.rr.ServeHTTP(httptest.NewRecorder(), req)
+					}
+					for k := 0; k < rhythm[1] && n < W; k++ {
+						h, ok := s.pick(1)
+						if !ok {
+							h = "refused"
+						}
+						got[h]++
+						n++
+					}
+				}
+				rep.Evaluations++
+				rep.Count("windows_with_interleaved_sticky_requests")
+				for i, w := range pool {
+					if got[serverURL(i).Host] != w/g {
+						rep.Violate("C01:rr:disproportionate-window:sticky-requests-interleaved", fmt.Sprintf("pool %v, sticky sessions on, %d cookie-bearing request(s) before every %d cookie-less one(s), offset %d: the next %d selections chose %s %d times, want %d (all: %v)",
+							pool, rhythm[0], rhythm[1], off, W, serverURL(i).Host, got[serverURL(i).Host], w/g, got),
+							map[string]any{"engine": "xstate", "part": "c01", "fixed_pool": pool, "offset": off, "replayable": false})
+						return
+					}
+				}
+			}
+		}
+	}
 }
 
 // Replay re-executes a recorded history.
